@@ -42,7 +42,7 @@ ASSUMPTIONS = ['kernel pty/pipe/socket ordering is trusted; the harness waits un
                'reader continues, so "between system call k and k+1" is exact',
                'TIMEOUT is never treated as EOF by the reader loops']
 REQUIRED = ['placements', 'popen_placements', 'text_mode_placements', 'traces_recorded', 'bulk_runs', 'inproc_placements', 'popen_runs', 'results_checked_le_size',
-            'socket_timeout_checks', 'eof_checks']
+            'socket_timeout_checks', 'eof_checks', 'async_model_calls', 'async_model_idle_chunks']
 
 PLANS = [['W', 'X'], ['W', 'W', 'X'], ['W', 'C', 'X'], ['W', 'W', 'C', 'X'], ['C', 'X'], ['X']]
 
@@ -797,7 +797,13 @@ def plan(tier, seed):
         cases.append({'kind': 'popen', 'maxread': rng.choice([1, 7, 64, 2000]), 'rs': rng.randrange(1 << 30),
                       'reader': rng.choice(['loop', 'expect'])})
     rng.shuffle(cases)
-    return [{'cases': cases[a:b], 'shard': i} for i, (a, b) in enumerate(split_range(len(cases), 16))]
+    specs = [{'cases': cases[a:b], 'shard': i} for i, (a, b) in enumerate(split_range(len(cases), 16))]
+    n, k = (160, 2) if tier == 'quick' else (3000, 8)
+    for i, (a, b) in enumerate(split_range(n, k)):
+        # the asyncio entry point reads the same stream: awaited calls, awaits abandoned from outside, text arriving while
+        # nobody waits (checks/_async_model.py) - whatever was written is handed out once, in order
+        specs.append({'mode': 'async-model', 'n': b - a, 'shard': 660 + i, 'seed': seed, 'tier': tier})
+    return specs
 
 
 def dispatch(case, acc):
@@ -835,6 +841,9 @@ def one(case, acc):
 
 def run_shard(spec, acc):
     signal.signal(signal.SIGHUP, signal.SIG_DFL)
+    if spec.get('mode') == 'async-model' or ('replay' in spec and 'calls' in spec['replay']):
+        from . import _async_model as AM
+        return AM.run(spec, acc, 'asyncio-reads')
     if 'replay' in spec:
         return one(spec['replay'], acc)
     for case in spec['cases']:
